@@ -217,7 +217,7 @@ CLAIMS = {
         "scenario is assembled from 12 solver-chosen presence bits (users, extra folder/files, static and default route, a second ACL rule at a solver-chosen position, listen ports, fixing-duration option, simulation defaults, a node declared OFF, explicit node durations, re-declared pre-installed software, a dns-client declared with its own server differing from the host's), bandwidth and a "
         "key-order permutation of the mappings the loader iterates; the real PrimaiteGame.from_config builds it and an "
         "inventory of the built object graph (nodes, addresses, links+bandwidth, routes, ACL rules at positions, "
-        "software with options and state, users, folders/files, agents, durations) is compared with an inventory derived independently from the dict, right after from_config and again after the episode set-up that every reset() runs; the NMNE capture settings in effect are the ones the scenario declares although another scenario with the opposite declaration was loaded before in the same process; the permuted scenario builds an identical simulation; the shipped scenario files with an RL agent go through the same comparison; an office-lan node set (1-47 hosts, with/without router, 3 bandwidths) is compared with its documented expansion, including link bandwidths and reachability inside the set.",
+        "software with options and state, users, folders/files, agents, durations) is compared with an inventory derived independently from the dict, right after from_config and again after the episode set-up that every reset() runs; the NMNE capture settings in effect are the ones the scenario declares although another scenario with the opposite declaration was loaded before in the same process; the permuted scenario builds an identical simulation; the shipped scenario files with an RL agent go through the same comparison; an office-lan node set (1-47 hosts, with/without router, 3 bandwidths) is compared with its documented expansion, including link bandwidths and reachability inside the set; episode-scheduled directories build episode e from the files under key e whatever order the keys are written in; the shipped wireless scenario with each access point declared on either frequency is built on that frequency, also as registered in the air space.",
         "note": "The claim starts at the parsed dict (PyYAML's C parser is outside the encoding); all inputs are finite "
         "choices - the solver enumerates the combinations (5 bits coupled per quick job, 2^11 combinations in thorough). "
         "Episode-list schedules (see C01/C04) and plugin node types are not covered. Trusted: CrossHair/z3, the reference inventory.",
